@@ -24,3 +24,52 @@ def modulus_guard(world, crate, kind, bits):
             conds = [fmt_n(run.norm.n(g["cond"]))[:120] for g in r.path.guards if "bits" in repr(run.norm.n(g["cond"]))]
             probs.append(f"a success path is not guarded by modulus bits == {bits} (size tests on the path: {conds})")
     return (not probs), "; ".join(sorted(set(probs))), f
+
+# ---------------------------------------------------------------- accepted byte widths of HasKey::decode
+LIB_EXACT = {   # library parsers applied to the (remaining) byte slice, with the lengths they accept
+    "libsodium_rs::crypto_sign::PublicKey::from_bytes": {32},
+    "libsodium_rs::crypto_sign::SecretKey::from_bytes": {64},
+    "ecdsa::verifying::VerifyingKey::<NistP384>::from_sec1_bytes": {49, 97},
+    "lc::VerifyingKey::from_sec1_bytes": {49, 97},
+    "elliptic_curve::secret_key::SecretKey::<NistP384>::from_slice": {48},   # (p384 zero-pads shorter input: the caller must test the length)
+}
+
+def accepted_widths(run, r, param="bytes"):
+    """Set of total input lengths a success path of a decoder accepts, or ('open', min) when nothing closes the length."""
+    from norm import fn as fmt_n
+    base = ("in", param)
+    consumed = 0
+    rem_lo = (0, 0)
+    nm = run.norm
+    # whole-length guards
+    for g in r.path.guards:
+        c = nm.n(g["cond"])
+        if isinstance(c, tuple) and c[0] == "binop" and c[1] in ("Ne", "Eq") and c[2] == ("len", base) and c[3][0] == "int":
+            if (c[1] == "Ne" and g["value"] == 0) or (c[1] == "Eq" and g["value"] == 1):
+                return {c[3][1]}
+    for e in r.path.events:
+        k = e["kind"]
+        tgt = e.get("target")
+        if k in ("split", "exactlen") and tgt is not None:
+            tn = nm.loc_in(tgt)
+            cur = base if rem_lo == (0, 0) else ("sl", base, rem_lo, (0, 1))
+            if tn != cur:
+                continue
+            if k == "exactlen":
+                return {consumed + e["n"]}
+            if k == "split" and e.get("how") in ("first",):
+                consumed += e["n"]
+                rem_lo = (rem_lo[0] + e["n"], 0)
+            elif k == "split" and e.get("how") in ("first1",):
+                return ("open", consumed + e["n"])
+        if k == "call":
+            p = e["name"].split("::<&")[0]
+            for lib, ws in LIB_EXACT.items():
+                if e["name"].startswith(lib) and e["vals"]:
+                    a0 = nm.n(e["vals"][0])
+                    cur = base if rem_lo == (0, 0) else ("sl", base, rem_lo, (0, 1))
+                    if a0 == cur:
+                        if lib.endswith("from_slice"):
+                            continue     # not an exact-length parser
+                        return {consumed + w for w in ws}
+    return ("open", consumed)
